@@ -73,6 +73,8 @@ func cmdSelftest(args []string) int {
 		contentOnly := map[uint64]bool{}
 		concurrent := map[uint64]bool{}
 		orderDependent := map[uint64]bool{}
+		tsslib := map[uint64]bool{}
+		tsslibDiff := map[uint64]bool{}
 		execs := 0
 		for _, procs := range []string{"1", "4", "16"} {
 			for rep := 0; rep < 2; rep++ {
@@ -91,10 +93,15 @@ func cmdSelftest(args []string) int {
 					if r.Probes["concurrent-dispatch"] > 0 {
 						concurrent[r.Seed] = true
 					}
+					if strings.HasPrefix(r.ConfigKey, "eddsa") || strings.HasPrefix(r.ConfigKey, "ecdsa") || strings.Contains(r.ConfigKey, " eddsa ") || strings.Contains(r.ConfigKey, " ecdsa ") {
+						tsslib[r.Seed] = true // tss-lib runs its own goroutines and draws its own randomness
+					}
 					if old, ok := ref[r.Seed]; !ok {
 						ref[r.Seed] = s
 					} else if old != s {
 						switch {
+						case tsslib[r.Seed]:
+							tsslibDiff[r.Seed] = true
 						case concurrent[r.Seed]:
 							// several deliveries into one node in one step: the order inside the step is the Go scheduler's
 							orderDependent[r.Seed] = true
@@ -110,7 +117,7 @@ func cmdSelftest(args []string) int {
 		}
 		os.Unsetenv("VERIF_WORKER_GOMAXPROCS")
 		b.cleanup()
-		fmt.Printf("selftest determinism: %s: %d seeds x %d executions; serial runs: %d, schedule/verdict divergences: %d, content-only differences: %d; concurrent-dispatch runs: %d, of which order-dependent: %d\n", prop, len(ref), execs, len(ref)-len(concurrent), len(diverging), len(contentOnly), len(concurrent), len(orderDependent))
+		fmt.Printf("selftest determinism: %s: %d seeds x %d executions; serial runs: %d, schedule/verdict divergences: %d, content-only differences: %d; concurrent-dispatch runs: %d, of which order-dependent: %d; tss-lib adapter runs: %d, of which differing: %d\n", prop, len(ref), execs, len(ref)-len(concurrent)-len(tsslib), len(diverging), len(contentOnly), len(concurrent), len(orderDependent), len(tsslib), len(tsslibDiff))
 		bad += len(diverging)
 	}
 	if bad > 0 {
